@@ -425,11 +425,18 @@ def r56(ctx, fx):
             continue
         n += 1
         hits = []
-        for x in lib.hwalk(f.hir["body"]):
+        from .c11 import _anc_walk
+        PRED = ("starts_with", "ends_with", "is_empty", "eq", "ne", "contains", "len", "eq_ignore_ascii_case", "is_char_boundary")
+        for x, anc in _anc_walk(f.hir["body"]):
             if x.get("k") == "mcall" and x.get("name") in ALTER:
                 rt = str(lib.strip(x["recv"]).get("ty", ""))
-                if "str" in rt or "String" in rt or "Chars" in rt or "LocatedSpan" in rt or "CharIndices" in rt:
-                    hits.append((x["name"], x.get("ln")))
+                if not ("str" in rt or "String" in rt or "Chars" in rt or "LocatedSpan" in rt or "CharIndices" in rt):
+                    continue
+                # a question put to the shortened text (`t.trim_start().starts_with(..)`, `== ..`) keeps nothing of it: that is R8.6's business, not this rule's
+                par = anc[-1][0] if anc else {}
+                if (par.get("k") == "mcall" and anc[-1][1] == "recv" and par.get("name") in PRED) or (par.get("k") == "binary" and par.get("op") in ("Eq", "Ne")):
+                    continue
+                hits.append((x["name"], x.get("ln")))
         if not hits:
             ctx.inst(rid, f.path, nontrivial=False)
         for name, ln in hits:
